@@ -446,8 +446,14 @@ fn spawn_logical<F: FnOnce() + Send + 'static>(f: F, first: bool) -> usize {
       OS_LIVE.fetch_sub(1, ss::atomic::Ordering::SeqCst);
     })
     .unwrap();
+  LAST_SPAWNED.with(|t| *t.borrow_mut() = Some(h.thread().clone()));
   OS_HANDLES.lock().unwrap_or_else(|e| e.into_inner()).push(h);
   tid
+}
+thread_local! {
+  /// the std Thread handle of the logical thread this OS thread spawned last (every logical thread IS an OS thread, so
+  /// `std::thread::current().id()` inside it equals `JoinHandle::thread().id()` outside)
+  static LAST_SPAWNED: std::cell::RefCell<Option<std::thread::Thread>> = const { std::cell::RefCell::new(None) };
 }
 
 /// harness-visible event (totally ordered: only one logical thread runs at a time)
@@ -472,8 +478,19 @@ pub fn current_tid() -> Option<usize> {
 pub struct JoinHandle<T> {
   real: Option<std::thread::JoinHandle<T>>,
   logical: Option<(usize, Arc<ss::Mutex<Option<std::thread::Result<T>>>>)>,
+  thread: std::thread::Thread,
 }
 impl<T> JoinHandle<T> {
+  pub fn thread(&self) -> &std::thread::Thread {
+    &self.thread
+  }
+  pub fn is_finished(&self) -> bool {
+    match (&self.real, &self.logical) {
+      (Some(r), _) => r.is_finished(),
+      (_, Some((_, slot))) => slot.lock().unwrap().is_some(),
+      _ => true,
+    }
+  }
   pub fn join(self) -> std::thread::Result<T> {
     if let Some(r) = self.real {
       return r.join();
@@ -496,7 +513,11 @@ where
   T: Send + 'static,
 {
   match active() {
-    None => JoinHandle { real: Some(std::thread::spawn(f)), logical: None },
+    None => {
+      let h = std::thread::spawn(f);
+      let thread = h.thread().clone();
+      JoinHandle { real: Some(h), logical: None, thread }
+    }
     Some(me) => {
       let slot = Arc::new(ss::Mutex::new(None));
       let slot2 = slot.clone();
@@ -507,11 +528,12 @@ where
         },
         false,
       );
+      let thread = LAST_SPAWNED.with(|t| t.borrow().clone()).expect("spawned thread handle");
       with_rt(|rt| rt.ev(me, format!("{{\"ev\":\"spawn\",\"v\":{}}}", tid)));
       // schedule point after spawn
       let g = RT.lock().unwrap();
       reschedule(g, me);
-      JoinHandle { real: None, logical: Some((tid, slot)) }
+      JoinHandle { real: None, logical: Some((tid, slot)), thread }
     }
   }
 }
